@@ -41,16 +41,16 @@ func main() {
 	}
 	runPure()
 	r := run.Rand
-	for i := 0; i < run.Scale(400, 12000); i++ {
+	for i := 0; i < run.Scale(4000, 60000); i++ {
 		historyCase(r.U64())
 	}
-	for i := 0; i < run.Scale(300, 20000); i++ {
+	for i := 0; i < run.Scale(4000, 100000); i++ {
 		onceCase(r.U64())
 	}
-	for i := 0; i < run.Scale(100, 5000); i++ {
+	for i := 0; i < run.Scale(2500, 60000); i++ {
 		setCase(r.U64())
 	}
-	for i := 0; i < run.Scale(100, 4000); i++ {
+	for i := 0; i < run.Scale(1200, 25000); i++ {
 		mixCase(r.U64())
 	}
 }
